@@ -356,6 +356,7 @@ var baseClasses = []string{
 	"mailto:user@example.com", "data:text/plain,hi  ?q=1#f", "about:blank", "javascript:alert(1)", "sc:opaque path   ?q#frag",
 	"ws://h:81/chat", "wss://[::1]:444/", "http://1.2.3.4/x", "http://[2001:db8::1]/", "http://xn--bcher-kva.example/ü",
 	"http://h//a//b", "http://h/a/b/c/d/", "http://h/?", "http://h/#", "sc://h?q", "sc://h#f",
+	"http://example.com/p?a&b=%41#x", "file:///d/f?x", "web+x://h/p?k=v%20w&&z", "https://h/?a=1&&b=2+3",
 }
 
 func (r *Rng) base() string {
